@@ -327,8 +327,8 @@ def r18_6(ctx):
                       "batch sizes 1 and 2; state block unchanged")
     pr = model.func(SDEINT, "parse_return")
     rep.analysed(pr)
-    T, d = 3, 2
-    for B in (1, 2):
+    T, d = (4, 3) if ctx.tier == "thorough" else (3, 2)
+    for B in ((1, 2, 3) if ctx.tier == "thorough" else (1, 2)):
         it = c17._index_interp(model)
         ys = c17.ST.symbolic("ys", (T, B, d + 1))
         y0 = c17.ST.symbolic("y0", (B, d + 1))
